@@ -1,5 +1,6 @@
 import MdkVerif.Model.Client
 import MdkVerif.Proofs.Client
+import MdkVerif.Props.C01Fork
 /-
   C01 — Members converge on one MIP-03-selected group state under races and reordering.
   This file: the MIP-03 order and its agreement with `is_better_candidate`; what one client does with
@@ -104,5 +105,36 @@ theorem single_fork_full_false : ¬ single_fork_full := by
     (fun c => (merge (stageCommit c 1 20 7 .selfUpdate false).1).1) rfl rfl (by decide)
   -- … but not for the committer that merged immediately
   revert h2; decide
+
+/-! ### the general single-fork theorems (proved in Props/C01Fork.lean; restated here so that this
+    module's audit — `#print axioms` on every theorem of the file — covers them) -/
+
+open MdkVerif.Fork MdkVerif.Props.C01Fork in
+theorem single_fork_bystander (c : Cl) (S : List Ev) (l : List Ev) (nx : Nat)
+    (hg : c.hasGroup = true) (hr : 1 ≤ c.retention) (hsec : SecretsOK c.g) (hm : NoForkSnapshot c)
+    (hS : Siblings c S) (hl : ∀ e ∈ l, e ∈ S) (hne : l ≠ []) :
+    ∃ w ∈ l, (∀ e ∈ l, e = w ∨ klt (key w) (key e) = true) ∧
+      (l.foldl (fun c e => (deliver c e nx).1) c).g.path = c.g.path ++ [w.n] ∧
+      (l.foldl (fun c e => (deliver c e nx).1) c).g = childG c w ∧
+      (getRec (l.foldl (fun c e => (deliver c e nx).1) c) w.n).map (·.state) = some 2 ∧
+      ∀ e ∈ l, e ≠ w → ∃ r, getRec (l.foldl (fun c e => (deliver c e nx).1) c) e.n = some r ∧ (r.state = 3 ∨ r.state = 4) :=
+  C01Fork.single_fork_bystander c S l nx hg hr hsec hm hS hl hne
+
+open MdkVerif.Fork MdkVerif.Props.C01Fork in
+theorem single_fork_committer (c : Cl) (o : Ev) (S : List Ev) (l : List Ev) (nx : Nat)
+    (hg : c.hasGroup = true) (hr : 1 ≤ c.retention) (hsec : SecretsOK c.g) (hm : NoForkSnapshot c)
+    (ho : OwnCommit c o) (hS : Siblings c S)
+    (hd : ∀ e ∈ S, e.n ≠ o.n ∧ (e.ts, e.idnum) ≠ (o.ts, o.idnum))
+    (hl : ∀ e ∈ l, e ∈ o :: S) (hne : l ≠ []) :
+    ∃ w ∈ l, (∀ e ∈ l, e = w ∨ klt (key w) (key e) = true) ∧
+      (l.foldl (fun c e => (deliver c e nx).1) c).g.path = c.g.path ++ [w.n] ∧
+      (l.foldl (fun c e => (deliver c e nx).1) c).g = childG c w ∧
+      (l.foldl (fun c e => (deliver c e nx).1) c).g.pending = none ∧
+      (getRec (l.foldl (fun c e => (deliver c e nx).1) c) w.n).map (·.state) = some 2 ∧
+      ∀ e ∈ l, e ≠ w → e ≠ o → ∃ r, getRec (l.foldl (fun c e => (deliver c e nx).1) c) e.n = some r ∧ (r.state = 3 ∨ r.state = 4) :=
+  C01Fork.single_fork_committer c o S l nx hg hr hsec hm ho hS hd hl hne
+
+/-- the excluded configuration of the bystander theorem: retention 0 -/
+theorem single_fork_needs_retention : ¬ C01Fork.single_fork_bystander_full := C01Fork.single_fork_bystander_full_false
 
 end MdkVerif.Props.C01
